@@ -2054,7 +2054,7 @@ Error BaseRAPass::_mark_stack_args_to_keep() noexcept {
     RAWorkReg* work_reg = work_regs[work_id];
     if (work_reg->has_flag(RAWorkRegFlags::kStackArgToStack)) {
       ASMJIT_ASSERT(work_reg->has_arg_index());
-      const FuncValue& src_arg = _func->detail().arg(work_reg->arg_index());
+      const FuncValue& src_arg = _func->detail().arg(work_reg->arg_index(), work_reg->arg_value_index());
 
       // If the register doesn't have stack slot then we failed. It doesn't make much sense as it was marked as
       // `kFlagStackArgToStack`, which requires the WorkReg was live-in upon function entry.
@@ -2098,7 +2098,7 @@ Error BaseRAPass::_update_stack_args() noexcept {
       }
 
       if (slot->is_stack_arg()) {
-        const FuncValue& src_arg = _func->detail().arg(work_reg->arg_index());
+        const FuncValue& src_arg = _func->detail().arg(work_reg->arg_index(), work_reg->arg_value_index());
         if (frame.has_preserved_fp()) {
           slot->set_base_reg_id(_fp.id());
           slot->set_offset(int32_t(frame.sa_offset_from_sa()) + src_arg.stack_offset());
